@@ -6,6 +6,7 @@ def dispatch (line : String) : String :=
   match line.splitOn "\t" with
   | "ops" :: args => handleOps args
   | "vm" :: args => handleVM args
+  | "skip" :: _ => "out=unsupported impl-only"
   | _ => "bad-op"
 
 partial def loop (h : IO.FS.Stream) (out : IO.FS.Stream) : IO Unit := do
